@@ -248,7 +248,7 @@ func TestPropHasherVsCarbon(t *testing.T) {
 		for i, s := range specs {
 			nodes[i] = s.node()
 			// the same construction path the relay uses (splits addr / instance)
-			d, err := dest.New("c15", matcher.Matcher{}, s.addr(), "", false, false, 0, 0, 0, 0, 0, 0, 0, 0, 0, 0)
+			d, err := dest.New("c15", matcher.Matcher{}, s.addr(), "", false, false, 1e9, 1e9, 1, 1, 1, 1, 1, 1e9, 1, 1)
 			if err != nil {
 				t.Fatalf("HARNESS-ERROR: %v", err)
 			}
@@ -261,7 +261,7 @@ func TestPropHasherVsCarbon(t *testing.T) {
 		perm := rapid.Permutation(specs).Draw(t, "perm")
 		pdests := make([]*dest.Destination, len(perm))
 		for i, s := range perm {
-			d, _ := dest.New("c15", matcher.Matcher{}, s.addr(), "", false, false, 0, 0, 0, 0, 0, 0, 0, 0, 0, 0)
+			d, _ := dest.New("c15", matcher.Matcher{}, s.addr(), "", false, false, 1e9, 1e9, 1, 1, 1, 1, 1, 1e9, 1, 1)
 			pdests[i] = d
 		}
 		phasher := route.NewConsistentHasher(pdests)
